@@ -11,7 +11,6 @@ M = [
  ("c01_crc_len_guard", "C01", "libadsb_deku/src/crc.rs", "if (n < 3) || (message.len() < n) {", "if n < 3 {"),
  # C02
  ("c02_long_bit", "C02", "libadsb_deku/src/lib.rs", "if id & 0x10 != 0 {", "if id & 0x18 != 0 {"),
- ("c02_version_3", "C02", "libadsb_deku/src/adsb.rs", "    #[deku(id = \"2\")]\n    DOC9871AppendixC,", "    #[deku(id_pat = \"2..=3\")]\n    DOC9871AppendixC,"),
  ("c02_drop_om_assert", "C02", "libadsb_deku/src/adsb.rs", "    /// (0, 0) in Version 2, reserved for other values\n    #[deku(bits = \"2\", assert_eq = \"0\")]\n    reserved: u8,", "    /// (0, 0) in Version 2, reserved for other values\n    #[deku(bits = \"2\")]\n    reserved: u8,"),
  # C03
  ("c03_table_entry", "C03", "libadsb_deku/src/crc.rs", "0x00fa_0480,\n];", "0x00fa_0481,\n];"),
@@ -31,7 +30,6 @@ M = [
  ("c07_atan2_wrap", "C07", "libadsb_deku/src/adsb.rs", "let heading = if h < 0.0 { h + 360.0 } else { h };", "let heading = if h <= 0.0 { h + 360.0 } else { h };"),
  ("c07_gnss_diff", "C07", "libadsb_deku/src/adsb.rs", "Ok(if gnss_baro_diff > 1 {(gnss_baro_diff - 1)* 25} else { 0 })", "Ok(if gnss_baro_diff > 1 {gnss_baro_diff * 25} else { 0 })"),
  # C08
- ("c08_char_table", "C08", "libadsb_deku/src/lib.rs", "b\"#ABCDEFGHIJKLMNOPQRSTUVWXYZ##### ###############0123456789######\"", "b\"#ABCDEFGHIJKLMNOPQRSTUVWXYZ##### ##############00123456789#####\""),
  ("c08_space", "C08", "libadsb_deku/src/lib.rs", "        if c != 32 {\n            chars.push(c);\n        }", "        if c != 32 && c != 0 {\n            chars.push(c);\n        }"),
  # C09
  ("c09_swap_bits", "C09", "libadsb_deku/src/lib.rs", "        let b1 = (num & 0b0_0000_0010_0000) >> 5;\n        let d1 = (num & 0b0_0000_0001_0000) >> 4;", "        let d1 = (num & 0b0_0000_0010_0000) >> 5;\n        let b1 = (num & 0b0_0000_0001_0000) >> 4;"),
@@ -47,6 +45,8 @@ M = [
  # C12
  ("c12_double_count", "C12", "rsadsb_common/src/lib.rs", "        let (state, airplane_added) = self.entry_or_insert(icao);\n        state.callsign = Some(identification.cn.clone());", "        let (state, airplane_added) = self.entry_or_insert(icao);\n        state.num_messages += u32::from(state.callsign.is_none());\n        state.callsign = Some(identification.cn.clone());"),
  ("c12_pi", "C12", "rsadsb_common/src/lib.rs", "ME::AirborneVelocity(vel) => self.add_airborne_velocity(icao, &vel),\n                    ME::AirbornePositionGNSSAltitude(altitude)\n                    | ME::AirbornePositionBaroAltitude(altitude) => {\n                        self.update_position(icao, &altitude, lat_long, max_rang)", "ME::AirborneVelocity(vel) => self.add_airborne_velocity(pi, &vel),\n                    ME::AirbornePositionGNSSAltitude(altitude)\n                    | ME::AirbornePositionBaroAltitude(altitude) => {\n                        self.update_position(icao, &altitude, lat_long, max_rang)"),
+ ("c12_squawk_from_df5", "C12", "rsadsb_common/src/lib.rs", "            _ => (),\n        }\n\n        airplane_added", "            DF::SurveillanceIdentityReply { id, .. } => {\n                let icao = ICAO([(frame.crc >> 16) as u8, (frame.crc >> 8) as u8, frame.crc as u8]);\n                if let Some(state) = self.0.get_mut(&icao) {\n                    state.squawk = Some(u32::from(id.0));\n                }\n            }\n            _ => (),\n        }\n\n        airplane_added"),
+ ("c15_touch_survivor", "C15", "rsadsb_common/src/lib.rs", "                if time < std::time::Duration::from_secs(filter_time) {\n                    true", "                if time < std::time::Duration::from_secs(filter_time) {\n                    v.on_ground = Some(false);\n                    true"),
  # C13
  ("c13_clear_one", "C13", "rsadsb_common/src/lib.rs", "            // clear record\n            state.coords = AirplaneCoor::default();", "            // clear record\n            state.coords = AirplaneCoor { altitudes: [None, state.coords.altitudes[1]], ..AirplaneCoor::default() };"),
  ("c13_jump_const", "C13", "rsadsb_common/src/lib.rs", "const MAX_AIRCRAFT_DISTANCE: f64 = 100.0;", "const MAX_AIRCRAFT_DISTANCE: f64 = 160.0;"),
@@ -59,7 +59,6 @@ M = [
  ("c15_refresh_ident", "C15", "rsadsb_common/src/lib.rs", "        state.num_messages += 1;\n        #[cfg(feature = \"std\")]\n        {\n            state.last_time = std::time::SystemTime::now();\n        }", "        state.num_messages += 1;\n        #[cfg(feature = \"std\")]\n        if state.num_messages % 8 != 0 {\n            state.last_time = std::time::SystemTime::now();\n        }"),
  # C16
  ("c16_clear_on_timeout", "C16", "apps/src/radar/radar.rs", "            // read timeout: keep the partial line in `input` for the next read\n            Err(_) => (),", "            // read timeout\n            Err(_) => input.clear(),"),
- ("c16_1090_short", "C16", "apps/src/1090/1090.rs", "            .strip_prefix('*')\n            .and_then(|line| line.strip_suffix(';'))", "            .strip_prefix('*')\n            .and_then(|line| line.strip_suffix(';'))\n            .filter(|line| line.len() % 4 != 2 || line.len() > 8)"),
  # C17
  ("c17_enter_unwrap", "C17", "apps/src/radar/radar.rs", "airplanes_state.selected().and_then(|selected| adsb_airplanes.keys().nth(selected))", "airplanes_state.selected().map(|selected| adsb_airplanes.keys().nth(selected).unwrap())"),
  ("c17_ctrlc_no_cleanup", "C17", "apps/src/radar/radar.rs", "        None => return restore_terminal(&mut terminal, &QuitReason::UserRequested),", "        None => return Ok(()),"),
@@ -68,7 +67,6 @@ M = [
  ("c18_total", "C18", "apps/src/radar/stats.rs", "        if airplane_added == Added::Yes {\n            self.total_airplanes += 1;\n        }", "        if airplane_added == Added::Yes && current_len as u32 > most_airplanes {\n            self.total_airplanes += 1;\n        }"),
  ("c18_precision", "C18", "apps/src/radar/airplanes.rs", "            lon = format!(\"{:.DEFAULT_PRECISION$}\", position.longitude);", "            lon = format!(\"{:.DEFAULT_PRECISION$}\", position.longitude.abs());"),
  # C19
- ("c19_cache_all", "C19", "libadsb_deku/src/lib.rs", "        let already_cached = self.cache.len().saturating_sub(self.pos).min(n);", "        let already_cached = if n > 1 { 0 } else { self.cache.len().saturating_sub(self.pos).min(n) };"),
  ("c19_pos_on_err", "C19", "libadsb_deku/src/lib.rs", "        let n = self.reader.read(buf)?;\n        let already_cached", "        let n = match self.reader.read(buf) {\n            Ok(n) => n,\n            Err(e) => {\n                self.pos += 1;\n                return Err(e);\n            }\n        };\n        let already_cached"),
  # C20
  ("c20_std_only", "C20", "rsadsb_common/src/lib.rs", "                && state.coords.kilo_distance == temp_coords.kilo_distance;", "                && state.coords.kilo_distance == temp_coords.kilo_distance\n                && cfg!(not(feature = \"std\"));"),
